@@ -19,7 +19,7 @@ RULE = ("the tree / option catalogue of C02 (structural trees with hard links, -
         "follow the report order; the summaries agree; the tree after `bash script` equals the tree after the real run "
         "(types, bytes, link targets, hard-link partition). Schedule part: for a 5-group report the script is identical "
         "for ALL 5! arrival orders at the log_script collector seam (E6), also when one or two (adjacent or not) groups yield no command because every member is protected by --keep-name, and for RAYON_NUM_THREADS in {1,2,16}. "
-        "Non-trivial = script with at least one operation; distinct by (tree, op, options, format).")
+        "Output part: the script written with `-o FILE` equals the one on standard output, and when FILE cannot take it (RLIMIT_FSIZE 0 / 4096 bytes, /dev/full; 3 and 150 groups) the command may not end with status 0 and an incomplete file. Non-trivial = script with at least one operation; distinct by (tree, op, options, format).")
 ASSUMPTIONS = ["bash + coreutils (rm, mv, ln) are the reference for executing the script",
                "`move` and `dedupe` scripts are compared with the real run operation by operation but are not executed "
                "(the statement limits script execution to remove and link)"]
@@ -59,6 +59,14 @@ def cases(tier, seed):
     for keep in ("g[12]_*", "g[01]_*", "g[23]_*", "g[02]_*", "g0_*"):
         out.append({"kind": "orders", "ngroups": ngroups, "op": "remove", "dargs": ["--keep-name", keep]})
     out.append({"kind": "orders", "ngroups": ngroups, "op": "link", "dargs": ["--keep-name", "g[12]_*"]})
+    # the script written with -o FILE: the same script as on standard output; when FILE cannot take it (size limit,
+    # full device) the command must say so - a script that silently misses operations is not what a real run does
+    for op in ("remove", "link", "softlink", "move"):
+        for ng in (3, 150):
+            for how in ("file", "fsize0", "fsize4096", "devfull"):
+                if how == "fsize4096" and ng == 3:
+                    continue
+                out.append({"kind": "output", "op": op, "ngroups": ng, "how": how})
     return out
 
 
@@ -109,9 +117,59 @@ def real_ops(events, tree_root, target):
     return [o for o in ops if o["kind"] != "move_copy_pending"]
 
 
+def evaluate_output(case):
+    import resource
+    import signal
+    viol = []
+    n = case["ngroups"]
+    feat = {"op": case["op"], "output": case["how"], "kind": "script_file_differs"}
+    norm = lambda s: re.sub(r"\.[A-Za-z0-9]{24}(?![A-Za-z0-9])", ".TMP", s)
+    with C.Scratch() as sc:
+        tree = []
+        for g in range(n):
+            for j in range(2):
+                tree.append({"p": "r/d%d/g%03d_%d" % (j, g, j), "k": "file", "c": ["base", 100 + g, g + 1]})
+        C.make_tree(sc.tree, tree)
+        report = D.make_report(sc, [], ["r"])
+        target = os.path.join(sc.root, "moved")
+        ref = D.run_dedupe(sc, case["op"], [], report, dry_run=True, target=target)
+        if ref["rc"] != 0 or not ref["out"].strip():
+            raise C.MachineryError("reference dry run failed: %s" % ref["err"][-300:])
+        outfile = "/dev/full" if case["how"] == "devfull" else os.path.join(sc.root, "script.out")
+        limit = {"fsize0": 0, "fsize4096": 4096}.get(case["how"])
+
+        def pre():
+            if limit is not None:
+                signal.signal(signal.SIGXFSZ, signal.SIG_IGN)     # write() then fails with EFBIG instead of killing
+                resource.setrlimit(resource.RLIMIT_FSIZE, (limit, limit))
+        args = list(D.OPS[case["op"]]) + ["--dry-run", "-o", outfile] + ([target] if case["op"] == "move" else [])
+        rc, out, err, to = C.run([C.FCLONES] + args, cwd=sc.tree, env=sc.env({"RAYON_NUM_THREADS": "1"}), stdin=report, preexec=pre)
+        errs = err.decode("utf-8", "replace")
+        written = ""
+        if case["how"] != "devfull" and os.path.exists(outfile):
+            written = C.read_file(outfile).decode("utf-8", "surrogateescape")
+        complete = norm(written) == norm(ref["out"])
+        ctx = "`%s --dry-run -o %s` (%d groups, %s)" % (case["op"], outfile, n, case["how"])
+        if to:
+            viol.append(dict(feat, kind="hang", detail=ctx))
+        elif case["how"] == "file":
+            if rc != 0 or not complete or D.parse_summary(errs) != D.parse_summary(ref["err"]):
+                viol.append(dict(feat, detail="%s: rc=%s; the file holds %d bytes, the script on standard output has %d; summaries %s / %s" % (
+                    ctx, rc, len(written), len(ref["out"]), D.parse_summary(errs), D.parse_summary(ref["err"]))))
+        elif rc == 0 and not complete:
+            viol.append(dict(feat, kind="script_lost_silently",
+                             detail="%s: exit status 0 and summary %s, but the file holds %d of %d bytes of the script; stderr: %s" % (
+                                 ctx, D.parse_summary(errs), len(written), len(ref["out"]), errs[-200:])))
+    return {"violations": viol, "nontrivial": [case["op"], "output", n, case["how"]], "outcome": "output_" + case["how"],
+            "evaluations": 2, "counters": {"unwritable_script_files": 0 if case["how"] == "file" else 1},
+            "sample": {"op": case["op"], "groups": n, "how": case["how"], "rc": rc}}
+
+
 def evaluate(case):
     if case["kind"] == "orders":
         return evaluate_orders(case)
+    if case["kind"] == "output":
+        return evaluate_output(case)
     viol = []
     feat = {"op": case["op"], "report_format": case["fmt"]}
     with C.Scratch() as sc:
